@@ -35,6 +35,14 @@ def _gen(g):
                            [["sendc", 3, 0, 0, True], g.choice([["close_s", g.int(0, 2), 0], ["send", g.int(0, 1), 0]]),
                             ["close_s", g.int(0, 2), 0]]]}
     if g.chance(6):
+        # targeted shape: several receivers parked, the single send handle is closed and one of the receivers is
+        # cancelled around that moment
+        nrv = g.int(2, 4)
+        return {"config": g.choice(["S", "S", "E", "U"]), "max": g.choice(MAXES), "ns": 1, "nr": g.int(1, 2),
+                "keep_r": g.bool(), "nest": g.choice([0, 0, 1]), "allow_f8": False,
+                "actors": [[["recv", i, g.int(0, 1)]] for i in range(nrv)]
+                + [[["closec", nrv + 2, 0, g.choice([-1, 0, 0, 1]), g.int(0, 2), g.chance(40), g.bool()]]]}
+    if g.chance(6):
         # targeted shape: one receive handle used by two tasks in turn; the first user is parked elsewhere and gets
         # cancelled in the cycle of a send that the second user (parked on that handle) should receive; then the last
         # send handle is closed
